@@ -123,7 +123,7 @@ def r12_1(ctx, m, schema):
         if sv is None:
             bad = (p, f"the path sequence `{seq}` sliced for this record was not extracted in this iteration")
             break
-        ok_seq = isinstance(sv, ast.Call) and isinstance(sv.func, ast.Attribute) and sv.func.attr == "extract_path" and [norm(a) for a in sv.args] == [f"{rec}.{P[5]}"]
+        ok_seq = isinstance(sv, ast.Call) and isinstance(sv.func, ast.Attribute) and sv.func.attr == "extract_path" and [norm(a) for a in sv.args][:1] == [f"{rec}.{P[5]}"] and all(isinstance(a, ast.Constant) for a in sv.args[1:])
         if not ok_seq:
             bad = (p, f"path sequence is `{norm(sv)}`, expected extract_path({rec}.{P[5]})")
             break
